@@ -287,6 +287,18 @@ def history_confirm(reqs, rid, nproc=None, label="history confirm"):
     return None
 
 
+def history_prefix(reqs, rid, nproc=None):
+    """the requests the worker process of `rid` had evaluated before it (the shard prefix), for a replay file"""
+    nproc = nproc or NCPU
+    nshards = min(nproc, max(1, len(reqs) // 8)) or 1
+    for k in range(nshards):
+        shard = reqs[k::nshards]
+        ids = [r["id"] for r in shard]
+        if rid in ids:
+            return [dict(r) for r in shard[:ids.index(rid)]]
+    return []
+
+
 def classify_death(stderr):
     s = stderr or ""
     if "stack exceeds" in s or "stack overflow" in s:
